@@ -295,6 +295,39 @@ double Interpolation::Integrate(double x_1, double x_2)
 	return sign * integral;
 }
 
+// The cubic pieces are monotone between their knots, but the continuation of the first (last) piece into the
+// extrapolation zone may turn there. Values at the stationary points of piece j strictly inside (x_low,x_high).
+std::vector<double> Interpolation::Stationary_Values(unsigned int j, double x_low, double x_high)
+{
+	std::vector<double> values;
+	// The derivative of the piece is A t^2 + B t + C with t = x - x_j.
+	double A = 3.0 * a[j], B = 2.0 * b[j], C = c[j];
+	std::vector<double> roots;
+	if(A == 0.0)
+	{
+		if(B != 0.0)
+			roots.push_back(-C / B);
+	}
+	else
+	{
+		double discriminant = B * B - 4.0 * A * C;
+		if(discriminant >= 0.0)
+		{
+			double q = -0.5 * (B + (B >= 0.0 ? 1.0 : -1.0) * sqrt(discriminant));
+			roots.push_back(q / A);
+			if(q != 0.0)
+				roots.push_back(C / q);
+		}
+	}
+	for(double t : roots)
+	{
+		double x = x_values[j] + t;
+		if(x > x_low && x < x_high)
+			values.push_back(prefactor * (a[j] * pow(t, 3.0) + b[j] * pow(t, 2.0) + c[j] * t + d[j]));
+	}
+	return values;
+}
+
 double Interpolation::Local_Minimum(double x_1, double x_2)
 {
 	libphysica::Check_For_Error(x_2 < x_1, "Interpolation::Local_Minimum()", "Faulty order of arguments.");
@@ -305,15 +338,22 @@ double Interpolation::Local_Minimum(double x_1, double x_2)
 	// The knots inside [x_1,x_2]: i_1+1,...,i_2, and the end knots if a limit lies in the extrapolation zone.
 	int first = (x_1 < domain[0] && x_2 >= domain[0]) ? i_1 : i_1 + 1;
 	int last  = (x_2 > domain[1] && x_1 <= domain[1]) ? i_2 + 1 : i_2;
-	if(first > last)
-		return std::min(f_left, f_right);
-	else
+	double result = std::min(f_left, f_right);
+	if(first <= last)
 	{
 		// Find the smallest value the curve takes at these knots (the prefactor may be negative).
 		double min_entry = prefactor * *std::min_element(function_values.begin() + first, function_values.begin() + last + 1);
 		double max_entry = prefactor * *std::max_element(function_values.begin() + first, function_values.begin() + last + 1);
-		return std::min({f_left, min_entry, max_entry, f_right});
+		result = std::min({result, min_entry, max_entry});
 	}
+	// A limit in the extrapolation zone: the continued edge cubic may turn between the limit and the end knot.
+	if(x_1 < domain[0])
+		for(double value : Stationary_Values(0, x_1, std::min(x_2, domain[0])))
+			result = std::min(result, value);
+	if(x_2 > domain[1])
+		for(double value : Stationary_Values(N - 2, std::max(x_1, domain[1]), x_2))
+			result = std::min(result, value);
+	return result;
 }
 
 double Interpolation::Local_Maximum(double x_1, double x_2)
@@ -326,15 +366,22 @@ double Interpolation::Local_Maximum(double x_1, double x_2)
 	// The knots inside [x_1,x_2]: i_1+1,...,i_2, and the end knots if a limit lies in the extrapolation zone.
 	int first = (x_1 < domain[0] && x_2 >= domain[0]) ? i_1 : i_1 + 1;
 	int last  = (x_2 > domain[1] && x_1 <= domain[1]) ? i_2 + 1 : i_2;
-	if(first > last)
-		return std::max(f_left, f_right);
-	else
+	double result = std::max(f_left, f_right);
+	if(first <= last)
 	{
 		// Find the largest value the curve takes at these knots (the prefactor may be negative).
 		double min_entry = prefactor * *std::min_element(function_values.begin() + first, function_values.begin() + last + 1);
 		double max_entry = prefactor * *std::max_element(function_values.begin() + first, function_values.begin() + last + 1);
-		return std::max({f_left, min_entry, max_entry, f_right});
+		result = std::max({result, min_entry, max_entry});
 	}
+	// A limit in the extrapolation zone: the continued edge cubic may turn between the limit and the end knot.
+	if(x_1 < domain[0])
+		for(double value : Stationary_Values(0, x_1, std::min(x_2, domain[0])))
+			result = std::max(result, value);
+	if(x_2 > domain[1])
+		for(double value : Stationary_Values(N - 2, std::max(x_1, domain[1]), x_2))
+			result = std::max(result, value);
+	return result;
 }
 
 double Interpolation::Global_Minimum()
